@@ -16,7 +16,7 @@
      "SilentDecodeError"  the codec-exception path neither replies nor closes, the stream stays active
      "SharedPoison"       handling a poison closes some other connection as well
      "LeakOnClose"        closing a connection leaves its streams active *)
-EXTENDS Integers, FiniteSets, TLC, Json
+EXTENDS Integers, Sequences, FiniteSets, TLC, Json
 
 CONSTANTS Conns, Defects, Emit
 
@@ -33,6 +33,35 @@ Allowed(class) ==
 
 (* the poison menu the driver concretises: listener protocol, name, class; side = which peer misbehaves *)
 P(proto, name, class, side) == [proto |-> proto, name |-> name, class |-> class, side |-> side]
+(* length / count / index fields at the boundaries of the integer types they are kept in (sign bit and width of
+   int32 / uint32 / int64 / uint64).  Where the verdict of the parser depends on limits configured elsewhere the class
+   is "any": what is demanded is containment (process alive, other connections served, nothing left behind, no memory
+   in the order of the announced length). *)
+IntegerBoundaryPoisons ==
+  { P("http1", "content-length-" \o v, "any", "down") : v \in {"2p31m1", "2p31", "2p32m1", "2p32", "2p63m1", "2p63", "2p64m1", "2p64"} }
+  \cup { P("http1", "chunk-size-" \o v, "any", "down") :
+            v \in {"7fffffff", "80000000", "ffffffff", "100000000", "7fffffffffffffff", "8000000000000000", "ffffffffffffffff", "10000000000000000"} }
+  \cup { P("http1", "upstream-content-length-2p31m1", "any", "up"), P("http1", "upstream-chunk-size-7fffffff", "any", "up") }
+  \cup { P("bolt", "body-length-2p31m1", "incomplete", "down"), P("bolt", "body-length-2p31", "incomplete", "down"),
+         P("dubbothrift", "outer-length-wraps", "incomplete", "down"),
+         P("http2", "headers-hpack-index-2p63", "undecodable", "down"),
+         P("http2", "headers-hpack-index-max-accepted", "undecodable", "down"),
+         P("http2", "headers-hpack-value-length-2p63", "undecodable", "down"),
+         P("http2", "settings-header-table-size-2p32m1", "any", "down"),
+         P("http2", "settings-enable-push-2", "undecodable", "down"),
+         P("http2", "settings-max-streams-2p32m1", "any", "down"),
+         P("http2", "settings-initial-window-2p31", "undecodable", "down"),
+         P("http2", "settings-initial-window-2p31m1", "any", "down"),
+         P("http2", "settings-max-frame-size-zero", "undecodable", "down"),
+         P("http2", "settings-max-frame-size-2p24", "undecodable", "down"),
+         P("http2", "settings-max-frame-size-2p32m1", "undecodable", "down"),
+         P("http2", "settings-max-header-list-zero", "any", "down"),
+         P("http2", "window-update-2p31m1", "undecodable", "down"),
+         P("http2", "window-update-reserved-bit", "undecodable", "down"),
+         P("http2", "window-update-2p32m1", "undecodable", "down"),
+         P("http2", "upstream-hpack-index-max-accepted", "undecodable", "up"),
+         P("http2", "upstream-frame-length-2p24", "undecodable", "up") }
+
 Poisons == {
   P("bolt", "truncated-request", "incomplete", "down"),
   P("bolt", "body-length-16m", "incomplete", "down"),
@@ -61,7 +90,7 @@ Poisons == {
   P("http2", "settings-length-5", "undecodable", "down"),
   P("http2", "window-update-zero", "undecodable", "down"),
   P("http2", "continuation-without-headers", "undecodable", "down")
-}
+} \cup IntegerBoundaryPoisons
 
 VARIABLES st,      \* st[c] \in {"idle", "open", "closed"}
           cls,     \* cls[c]: class of the poison sent on c, "none" before
